@@ -7,7 +7,7 @@ use super::wire;
 use super::{ConnSpec, Drv, Rng, Sp};
 use crate::parse::{PropSpec, is_ignored};
 
-pub const STRATEGIES: [&str; 16] = [
+pub const STRATEGIES: [&str; 18] = [
     "drain",
     "fill-q1",
     "fill-q2",
@@ -24,6 +24,8 @@ pub const STRATEGIES: [&str; 16] = [
     "rm2-fill-q2-rc10",
     "cancel-at-flush",
     "partial-reads",
+    "wrap-near-inflight",
+    "fill-q2-resume-fill",
 ];
 
 /// Directives a continuation may add (approximately).
@@ -438,6 +440,66 @@ fn continuation(d: &mut Drv, strategy: &str) {
                     break;
                 }
                 d.x("d 2");
+            }
+        }
+        "wrap-near-inflight" => {
+            // Force the allocator over identifiers that are (or should be) in use: retained,
+            // in the release list, or answered earlier by a PUBREC with reason 0x10.
+            let mut ids: Vec<u16> = in_flight(d).iter().map(|f| f.0).collect();
+            for id in d.broker.rc10_ids.clone() {
+                if !ids.contains(&id) {
+                    ids.push(id);
+                }
+            }
+            if ids.is_empty() {
+                seed_in_flight(d);
+                ids = in_flight(d).iter().map(|f| f.0).collect();
+            }
+            ids.truncate(4);
+            for id in ids {
+                for start in [id, id.wrapping_sub(1)] {
+                    if start == 0 || !d.live() {
+                        continue;
+                    }
+                    d.x("cancel");
+                    d.x(&format!("setpid {start}"));
+                    for line in ["subscribe - 776e/1/0/0/0", "publish 1 0 776e 31 -", "publish 2 0 776e 32 -"] {
+                        d.x(line);
+                        d.go();
+                    }
+                }
+            }
+        }
+        "fill-q2-resume-fill" => {
+            // Eight exchanges in the PUBREL phase across a resume, then a ninth.
+            for i in 0..8u8 {
+                d.x(&format!("publish 2 0 6638 {:02x} -", 0x30 + i));
+                d.go();
+            }
+            let mut i = 0;
+            while i < d.broker.owed().len() {
+                if d.broker.owed()[i].kind == "pubrec" {
+                    let mut o = d.broker.deliver(i);
+                    o.bytes = wire::ack(0x50, o.pid, None, None);
+                    d.send(&o);
+                } else {
+                    i += 1;
+                }
+            }
+            settle(d);
+            settle(d);
+            while let Some(i) = d.broker.owed().iter().position(|o| o.kind == "pubcomp") {
+                d.broker.forget(i);
+            }
+            let props = if d.rng.pct(50) { vec![PropSpec::U16(0x21, 8)] } else { vec![] };
+            if resume(d, true, props) {
+                d.go();
+                d.x("publish 2 0 6639 39 -");
+                d.go();
+                if let Some(i) = d.broker.owed().iter().rposition(|o| o.kind == "pubrec") {
+                    d.deliver(i);
+                }
+                settle(d);
             }
         }
         "idle-ticks" => idle_ticks(d, start),
